@@ -63,7 +63,7 @@ func caseGen() *rapid.Generator[Case] {
 					op.Form = rapid.SampledFrom([]string{"bare", "bare", "tt.", "Tt.", "TT.", "bare+trail", "pad"}).Draw(t, "form")
 					op.Trail = rapid.SampledFrom([]string{"compact", "x.y", "wide"}).Draw(t, "trail")
 				case "pkg":
-					op.Form = rapid.SampledFrom([]string{"bare", "flip", "trail", "flip+trail", "pad"}).Draw(t, "form")
+					op.Form = rapid.SampledFrom([]string{"bare", "flip", "trail", "flip+trail", "pad", "tt."}).Draw(t, "form")
 					op.Trail = rapid.SampledFrom([]string{"x", "x.y", "", "utf8-light", "caption=foo", "CSV", "..", "texttable.none"}).Draw(t, "trail")
 				case "texttable":
 					op.Form = rapid.SampledFrom([]string{"bare", "flip"}).Draw(t, "form")
